@@ -7,22 +7,38 @@ static void havoc_l(struct limiter *l) { l->my_count = nondet_size_t(); l->my_tr
 static void lim_init(struct limiter *l) { l->my_threshold = nondet_size_t(); havoc_l(l); meTry = meP = false; __CPROVER_assume(LINV(l) && LBOUND(l)); }
 /* Each locked section is one atomic step.  The ghost bookkeeping of this thread's own put attempt is derived from what the section did to
    my_tries (+1: my try is registered; -1: my try is settled -- counted if it had been delivered, withdrawn otherwise). */
-static size_t tries_at_entry; static bool in_section;
+static size_t tries_at_entry, sum_at_entry, g_fwd_made_sec; static bool in_section;
+/* what the section reads of its surroundings (predecessor cache, successor cache, graph activity): one snapshot per locked section */
+bool g_pe, g_se, g_ga;
+bool g_dom_early_decrement, g_absorbed;
 static void section_end(void) {
     if (!in_section) return;
-    in_section = false;
+    in_section = false; bool settled_delivered = false;
     if (L->my_tries == tries_at_entry + 1) { __CPROVER_assert(!meTry, "C15.limiter: one try per call"); meTry = true; }
-    else if (L->my_tries + 1 == tries_at_entry) { __CPROVER_assert(meTry, "C15.limiter: only a registered try is withdrawn"); if (meP) { P--; meP = false; } meTry = false; }
+    else if (L->my_tries + 1 == tries_at_entry) { __CPROVER_assert(meTry, "C15.limiter: only a registered try is withdrawn"); settled_delivered = meP; if (meP) { P--; meP = false; } meTry = false; }
     else __CPROVER_assert(L->my_tries == tries_at_entry, "C15.limiter: a section changes my_tries by at most one");
     __CPROVER_assert(LINV(L), "guarantee: the limiter invariant holds whenever this thread is outside its locked sections (counters account exactly for delivered minus decremented messages)");
     __CPROVER_assert(D <= L->my_threshold, "C15.limiter: delivered-and-not-decremented messages never exceed the threshold");
+    /* a section that frees capacity by withdrawing a failed attempt is the only place that can start the pull of a message which a predecessor kept (and
+       flipped its edge to pull mode for) while the attempt was in flight */
+    if (g_mode == 0 && L->my_count + L->my_tries < sum_at_entry) {
+        bool pull_due = L->my_count + L->my_tries < L->my_threshold && !g_pe && !g_se && g_ga;
+        if (settled_delivered) {          /* my_count + my_tries fell although the attempt was delivered: an early decrement (my_future_decrement) was absorbed */
+            __CPROVER_assume(g_dom_early_decrement);      /* domain split: this half of the domain has its own job (limiter.try_put.early_decrement) */
+            g_absorbed = true;
+            __CPROVER_assert(!pull_due || g_fwd_made_sec >= 1,
+                             "C15.limiter: when a delivered attempt absorbs an early decrement and then capacity is available, a predecessor is waiting, a successor is present and the graph is active, a forward task is created (a rejected message kept by its sender is pulled, not stranded)");
+        } else
+            __CPROVER_assert(!pull_due || g_fwd_made_sec >= 1,
+                             "C15.limiter: when a failed attempt is withdrawn and then capacity is available, a predecessor is waiting, a successor is present and the graph is active, a forward task is created (a rejected message kept by its sender is pulled, not stranded)");
+    }
 }
 /* a locked section starts: whatever other threads did since my last section preserved the invariant (rely) */
 static void LOCKED_SECTION(void) {
     section_end();
     havoc_l(L); __CPROVER_assume(LINV(L) && LBOUND(L));
     if (g_mode == 1) { __CPROVER_assume(g_delta <= D); D -= g_delta; }   /* the decrement takes effect in its locked section; precondition: not more than was delivered */
-    tries_at_entry = L->my_tries; in_section = true;
+    tries_at_entry = L->my_tries; sum_at_entry = L->my_count + L->my_tries; g_fwd_made_sec = 0; g_pe = nondet_bool(); g_se = nondet_bool(); g_ga = nondet_bool(); in_section = true;
 }
 static graph_task *STUB_succ_try_put_task(void) {
     section_end();
